@@ -94,6 +94,104 @@ Proof.
 Qed.
 Print Assumptions c18_case_sensitive.
 
+(* the DOCUMENTED aliases and special registers, written out here (not taken from the source): ARM r11 / r13 / r14 / r15 = fp / sp / lr / pc,
+   ARM64 (both layouts) x29 / x30 = fp / lr, SPARC gN / oN / lN / iN = g_rN / g_r(8+N) / g_r(16+N) / g_r(24+N); the stack / instruction pointer
+   register of each type.  memoize_register maps each alias to exactly that register, both spellings denote one location, and the
+   sp / ip register names are the documented ones *)
+Definition documented_aliases : list (name * name * name) :=   (* variant, alias, register *)
+  [([65; 114; 109], [114; 49; 49], [102; 112]);
+   ([65; 114; 109], [114; 49; 51], [115; 112]);
+   ([65; 114; 109], [114; 49; 52], [108; 114]);
+   ([65; 114; 109], [114; 49; 53], [112; 99]);
+   ([65; 114; 109; 54; 52], [120; 50; 57], [102; 112]);
+   ([65; 114; 109; 54; 52], [120; 51; 48], [108; 114]);
+   ([79; 108; 100; 65; 114; 109; 54; 52], [120; 50; 57], [102; 112]);
+   ([79; 108; 100; 65; 114; 109; 54; 52], [120; 51; 48], [108; 114]);
+   ([83; 112; 97; 114; 99], [103; 48], [103; 95; 114; 48]);
+   ([83; 112; 97; 114; 99], [111; 48], [103; 95; 114; 56]);
+   ([83; 112; 97; 114; 99], [108; 48], [103; 95; 114; 49; 54]);
+   ([83; 112; 97; 114; 99], [105; 48], [103; 95; 114; 50; 52]);
+   ([83; 112; 97; 114; 99], [103; 49], [103; 95; 114; 49]);
+   ([83; 112; 97; 114; 99], [111; 49], [103; 95; 114; 57]);
+   ([83; 112; 97; 114; 99], [108; 49], [103; 95; 114; 49; 55]);
+   ([83; 112; 97; 114; 99], [105; 49], [103; 95; 114; 50; 53]);
+   ([83; 112; 97; 114; 99], [103; 50], [103; 95; 114; 50]);
+   ([83; 112; 97; 114; 99], [111; 50], [103; 95; 114; 49; 48]);
+   ([83; 112; 97; 114; 99], [108; 50], [103; 95; 114; 49; 56]);
+   ([83; 112; 97; 114; 99], [105; 50], [103; 95; 114; 50; 54]);
+   ([83; 112; 97; 114; 99], [103; 51], [103; 95; 114; 51]);
+   ([83; 112; 97; 114; 99], [111; 51], [103; 95; 114; 49; 49]);
+   ([83; 112; 97; 114; 99], [108; 51], [103; 95; 114; 49; 57]);
+   ([83; 112; 97; 114; 99], [105; 51], [103; 95; 114; 50; 55]);
+   ([83; 112; 97; 114; 99], [103; 52], [103; 95; 114; 52]);
+   ([83; 112; 97; 114; 99], [111; 52], [103; 95; 114; 49; 50]);
+   ([83; 112; 97; 114; 99], [108; 52], [103; 95; 114; 50; 48]);
+   ([83; 112; 97; 114; 99], [105; 52], [103; 95; 114; 50; 56]);
+   ([83; 112; 97; 114; 99], [103; 53], [103; 95; 114; 53]);
+   ([83; 112; 97; 114; 99], [111; 53], [103; 95; 114; 49; 51]);
+   ([83; 112; 97; 114; 99], [108; 53], [103; 95; 114; 50; 49]);
+   ([83; 112; 97; 114; 99], [105; 53], [103; 95; 114; 50; 57]);
+   ([83; 112; 97; 114; 99], [103; 54], [103; 95; 114; 54]);
+   ([83; 112; 97; 114; 99], [111; 54], [103; 95; 114; 49; 52]);
+   ([83; 112; 97; 114; 99], [108; 54], [103; 95; 114; 50; 50]);
+   ([83; 112; 97; 114; 99], [105; 54], [103; 95; 114; 51; 48]);
+   ([83; 112; 97; 114; 99], [103; 55], [103; 95; 114; 55]);
+   ([83; 112; 97; 114; 99], [111; 55], [103; 95; 114; 49; 53]);
+   ([83; 112; 97; 114; 99], [108; 55], [103; 95; 114; 50; 51]);
+   ([83; 112; 97; 114; 99], [105; 55], [103; 95; 114; 51; 49])].
+Definition documented_sp_ip : list (name * name * name) :=     (* variant, stack pointer register, instruction pointer register *)
+  [([88; 56; 54], [101; 115; 112], [101; 105; 112]);
+   ([65; 109; 100; 54; 52], [114; 115; 112], [114; 105; 112]);
+   ([65; 114; 109], [115; 112], [112; 99]);
+   ([65; 114; 109; 54; 52], [115; 112], [112; 99]);
+   ([79; 108; 100; 65; 114; 109; 54; 52], [115; 112], [112; 99]);
+   ([80; 112; 99], [114; 49], [115; 114; 114; 48]);
+   ([80; 112; 99; 54; 52], [114; 49], [115; 114; 114; 48]);
+   ([83; 112; 97; 114; 99], [103; 95; 114; 49; 52], [112; 99]);
+   ([77; 105; 112; 115], [115; 112], [112; 99])].
+Theorem c18_documented_aliases :
+  (forall v a r, In (v, a, r) documented_aliases ->
+     exists c, In c all_contexts /\ ct_variant c = v /\ memoize c a = Some r /\ memoize c r = Some r /\
+               loc_eqb (loc_of c a) (loc_of c r) = true) /\
+  (forall v s i, In (v, s, i) documented_sp_ip ->
+     exists c, In c all_contexts /\ ct_variant c = v /\ ct_sp_name c = s /\ ct_ip_name c = i) /\
+  (* and there are no other aliases: every memoize_register arm of every table is in the list *)
+  (forall c, In c all_contexts -> forall a r, find_arm a (ct_memo c) = Some r -> In (ct_variant c, a, r) documented_aliases).
+Proof.
+  split; [|split].
+  - assert (H : forallb (fun e => match e with (v, a, r) =>
+                existsb (fun c => name_eqb (ct_variant c) v && opt_str_eqb (memoize c a) (Some r) && opt_str_eqb (memoize c r) (Some r) &&
+                                  loc_eqb (loc_of c a) (loc_of c r)) all_contexts end) documented_aliases = true) by (vm_compute; reflexivity).
+    intros v a r Hin. rewrite forallb_forall in H. specialize (H _ Hin). cbv beta iota in H.
+    apply existsb_exists in H. destruct H as [c [Hc X]].
+    apply andb_true_iff in X. destruct X as [X L]. apply andb_true_iff in X. destruct X as [X M2].
+    apply andb_true_iff in X. destruct X as [V M1].
+    exists c. split; [exact Hc|]. split; [apply name_eqb_eq; exact V|].
+    split; [apply opt_str_eqb_spec; exact M1|]. split; [apply opt_str_eqb_spec; exact M2 | exact L].
+  - assert (H : forallb (fun e => match e with (v, s, i) =>
+                existsb (fun c => name_eqb (ct_variant c) v && name_eqb (ct_sp_name c) s && name_eqb (ct_ip_name c) i) all_contexts end)
+                documented_sp_ip = true) by (vm_compute; reflexivity).
+    intros v s i Hin. rewrite forallb_forall in H. specialize (H _ Hin). cbv beta iota in H.
+    apply existsb_exists in H. destruct H as [c [Hc X]].
+    apply andb_true_iff in X. destruct X as [X I]. apply andb_true_iff in X. destruct X as [V S].
+    exists c. split; [exact Hc|]. repeat split; apply name_eqb_eq; assumption.
+  - assert (H : forallb (fun c => forallb (fun arm => forallb (fun a =>
+                  existsb (fun e => match e with (v, a', r) => name_eqb v (ct_variant c) && name_eqb a' a &&
+                                      opt_str_eqb (find_arm a (ct_memo c)) (Some r) end) documented_aliases) (fst arm)) (ct_memo c)) all_contexts = true)
+      by (vm_compute; reflexivity).
+    intros c Hc a r Hf. rewrite forallb_forall in H. specialize (H c Hc). rewrite forallb_forall in H.
+    assert (Harm : exists arm, In arm (ct_memo c) /\ In a (fst arm)).
+    { clear H. revert Hf. generalize (ct_memo c). induction l as [|[ps y] l IH]; cbn [find_arm]; [discriminate|].
+      destruct (mem a ps) eqn:E.
+      - intros _. exists (ps, y). split; [left; reflexivity | apply mem_In; exact E].
+      - intro Hf. destruct (IH Hf) as [arm [A1 A2]]. exists arm. split; [right; exact A1 | exact A2]. }
+    destruct Harm as [arm [A1 A2]]. specialize (H arm A1). rewrite forallb_forall in H. specialize (H a A2).
+    apply existsb_exists in H. destruct H as [[[v a'] r'] [Hin X]].
+    apply andb_true_iff in X. destruct X as [X M]. apply andb_true_iff in X. destruct X as [V A].
+    apply name_eqb_eq in V. apply name_eqb_eq in A. apply opt_str_eqb_spec in M. subst. rewrite Hf in M. inversion M. subst. exact Hin.
+Qed.
+Print Assumptions c18_documented_aliases.
+
 (* sequences of writes, of ANY length, through ANY strings (unknown names are refused and change nothing): the sequence
    never panics, and afterwards every accepted name reads the value written last through any spelling of its register -
    or what it read before, if no such write occurred; the dedicated accessors likewise *)
